@@ -44,7 +44,39 @@ def add_enumerators(rep, prefix):
         rep.add(f'{prefix}.get_cause_enumerator_item_reiterable.post.first_item.path{i}', r.status, time=r.time, backend=r.backend, where='the first yielded item: the item the fast path inspects')
         r = pr.prove(list(s.pc), (s.cost if not isinstance(s.cost, int) else z3.IntVal(s.cost)) <= 1)
         rep.add(f'{prefix}.get_cause_enumerator_item_reiterable.cost.path{i}', r.status, time=r.time, backend=r.backend, where='one item read, any size')
+    # ---- whichever getter each registered logic object was CONSTRUCTED with selects the item its generated fast path inspects
+    #      (anchored on the registry, not on helper names: a sequence hint samples index sigma, a reiterable hint the first item, a
+    #      quasi-iterable hint index sigma of a Sequence pith and the first item of any other Collection)
+    import beartype._check.cls.logic.logmap as lmap
+    from beartype._data.hint.sign.datahintsigns import HintSignList, HintSignSet, HintSignIterable
+    sigma_all = z3.If(M.truthy(ISRANDOM), M.unbox_int(RINT) % M.len_(PITH), 0)
+    basepre = [M.len_(PITH) > 0, z3.Implies(M.truthy(ISRANDOM), z3.And(RINT != uni.const(None), M.unbox_int(RINT) >= 0))]
+    for kindname, sign, pre_k, spec_k in (
+            ('sequence', HintSignList, [M.inst(PITH, uni.const(cabc.Sequence))], lambda: (sigma_all, M.item(PITH, sigma_all))),
+            ('reiterable', HintSignSet, [M.inst(PITH, uni.const(cabc.Collection))], lambda: (z3.IntVal(0), M.first(PITH))),
+            ('quasiiterable', HintSignIterable, [M.inst(PITH, uni.const(cabc.Collection))],
+             lambda: (z3.If(M.inst(PITH, uni.const(cabc.Sequence)), sigma_all, 0), z3.If(M.inst(PITH, uni.const(cabc.Sequence)), M.item(PITH, sigma_all), M.first(PITH))))):
+        logic = lmap.HINT_SIGN_PEP484585_CONTAINER_TO_LOGIC.get(sign)
+        getter = getattr(logic, '_get_cause_enumerator_item', None)
+        if getter is None: rep.error(f'{prefix}.registry.{kindname}: no logic object / getter registered for {sign}'); continue
+        exg = Exec(uni, dict(mod.__dict__), call_model={}, name='registry_' + kindname); exg.fields_mode = True; exg.method_names = set()
+        gnode = exg.func_ast(getter)
+        outs_g = exg.run_function(gnode, St((), tuple(basepre + pre_k)), (VObj(CAUSE),), {}, getter)
+        prg = discharge.Prover(axioms)
+        for ob in exg.obls:
+            if ob.kind == 'assert': continue       # internal asserts of the helpers are covered by the helper-level obligations below
+            r = prg.prove(list(ob.pc), ob.goal); rep.add(f'{prefix}.registry.{kindname}.{ob.kind}#{ob.name.rsplit(".", 1)[-1]}', r.status, time=r.time, backend=r.backend, where=ob.where)
+        widx, witem = spec_k()
+        if not outs_g: rep.error(f'{prefix}.registry.{kindname}: no returning path')
+        for i, (s_, v_) in enumerate(outs_g):
+            ok = isinstance(v_, VTup) and len(v_.items) == 2
+            r = prg.prove(list(s_.pc), z3.And(exg.as_int(v_.items[0]) == widx, exg.obj(v_.items[1]) == witem)) if ok else None
+            rep.add(f'{prefix}.registry.{kindname}.post.same_item_as_fast_path.path{i}', r.status if r else 'refuted', time=r.time if r else 0, backend=r.backend if r else 'structural',
+                    where=f'the error-path item getter registered for {kindname} hints ({getattr(getter, "__name__", getter)}) returns the item the generated check inspects: otherwise no cause is found and an internal desynchronisation error escapes')
     # ---- _get_cause_enumerator_item_collection: dispatch on Sequence (callee contracts)
+    if not hasattr(mod, '_get_cause_enumerator_item_collection'):
+        rep.extra['errpath_note'] = 'helper _get_cause_enumerator_item_collection no longer exists: covered by the registry-anchored obligations only'
+        return _enumerate_cause_items(rep, prefix, uni, axioms, mod, SELF, CAUSE, STRAT)
     SEQRES = VTup((VInt(z3.Int('seq_idx')), VObj(z3.Const('seq_item', M.Obj)))); REIRES = VTup((VInt(z3.Int('rei_idx')), VObj(z3.Const('rei_item', M.Obj))))
     def m_seq(ex_, s, f, a, kw, where): return [(s.ev('callee', 'sequence'), SEQRES)]
     def m_rei(ex_, s, f, a, kw, where): return [(s.ev('callee', 'reiterable'), REIRES)]
@@ -55,6 +87,12 @@ def add_enumerators(rep, prefix):
         r = pr.prove(list(s.pc), M.inst(PITH, uni.const(cabc.Sequence)) == z3.BoolVal(which == ['sequence']))
         rep.add(f'{prefix}.get_cause_enumerator_item_collection.post.dispatch.path{i}', r.status, time=r.time, backend=r.backend, where='a Sequence pith by index, any other Collection by its first item - the same split as the quasi-iterable template')
         rep.add(f'{prefix}.get_cause_enumerator_item_collection.post.returns_callee_result.path{i}', 'proved' if (len(which) == 1 and v is (SEQRES if which[0] == 'sequence' else REIRES)) else 'refuted', backend='structural')
+    return _enumerate_cause_items(rep, prefix, uni, axioms, mod, SELF, CAUSE, STRAT)
+
+def _enumerate_cause_items(rep, prefix, uni, axioms, mod, SELF, CAUSE, STRAT):
+    from pyvc import funcmode, model as M, symx, discharge
+    from pyvc.symx import Exec, St, VObj, VPy, VTup, VIter, VInt
+    from beartype import BeartypeStrategy
     # ---- HintLogicABC.enumerate_cause_items: under O1 exactly ONE pair (the callee's), never enumerate(pith)
     ITEM = VObj(z3.Const('enumerator_item', M.Obj))
     def m_item(ex_, s, f, a, kw, where): return [(s.ev('callee', 'item'), ITEM)]
